@@ -5,8 +5,9 @@ Installed as ``sys.modules['ray']`` *before* resonaate is imported (``install()`
 * arguments of a remote call, ``put`` payloads and results cross a pickle round trip (a worker can never mutate
   driver objects; the driver never sees worker-side mutation of the submission);
 * ``wait(refs)`` returns exactly one finished ref; *which one* is decided by ``SCHED`` (default: first);
-* a job body runs with the global numpy RNG seeded from a hash of its pickled arguments, mirroring separate worker
-  processes whose noise draws do not depend on which sibling job ran first; the driver's RNG state is restored after;
+* a job body runs with the global numpy RNG seeded from (function name, submission ordinal of that function since
+  reset()), mirroring separate worker processes whose noise draws do not depend on which sibling job *finished* first
+  (the submission order is fixed by the driver loop); the driver's RNG state is restored after;
 * named actors (``_KVSActor``) live in a table that ``reset()`` clears.
 
 Object refs are content-addressed when pickled (so two replays of the same schedule produce byte-identical
@@ -26,6 +27,7 @@ import numpy as np
 _uid = itertools.count()
 _STORE: dict[str, bytes] = {}  # content key -> pickled value
 _PENDING: dict[int, tuple] = {}  # uid -> (func, arg bytes, content key)
+_SUBMIT_COUNT: dict[str, int] = {}  # function name -> number of submissions since reset()
 _ACTORS: dict[str, object] = {}
 _initialized = False
 
@@ -33,6 +35,8 @@ MEMO: dict[str, bytes] = {}  # job content key -> pickled result (only used when
 MEMO_ENABLED = False
 STATS = {"jobs_run": 0, "memo_hits": 0, "waits": 0, "puts": 0}
 JOB_LOG: list | None = None  # when a list: (func name, arg bytes) of every submitted job is appended
+DELIVERY_HOOK = None  # callable(func name, result object): called when wait() hands a finished job to the driver
+_JOBNAME: dict[str, str] = {}
 
 
 class Scheduler:
@@ -100,7 +104,7 @@ def _key(*parts: bytes) -> str:
 
 
 def _run_job(uid: int):
-    func, arg_bytes, key = _PENDING.pop(uid)
+    func, arg_bytes, key, seed = _PENDING.pop(uid)
     if key in _STORE:
         return
     if MEMO_ENABLED and key in MEMO:
@@ -109,7 +113,7 @@ def _run_job(uid: int):
         return
     args, kwargs = pickle.loads(arg_bytes)
     saved = np.random.get_state()
-    np.random.seed(int(key[:8], 16))
+    np.random.seed(seed)
     try:
         result = func(*args, **kwargs)
     finally:
@@ -130,9 +134,13 @@ class RemoteFunction:
     def remote(self, *args, **kwargs):
         arg_bytes = pickle.dumps((args, kwargs), protocol=4)
         name = f"{self._func.__module__}.{self._func.__qualname__}"
-        key = _key(name.encode(), arg_bytes)
+        seq = _SUBMIT_COUNT.get(name, 0)
+        _SUBMIT_COUNT[name] = seq + 1
+        key = _key(name.encode(), str(seq).encode(), arg_bytes)
         ref = ObjectRef(key)
-        _PENDING[ref.uid] = (self._func, arg_bytes, key)
+        seed = int(_key(name.encode(), str(seq).encode())[:8], 16)
+        _PENDING[ref.uid] = (self._func, arg_bytes, key, seed)
+        _JOBNAME[key] = name
         if JOB_LOG is not None:
             JOB_LOG.append((name, arg_bytes))
         return ref
@@ -211,7 +219,7 @@ def _get_one(ref):
         raise TypeError(f"ray.get of non-ref {type(ref)}")
     if ref.key not in _STORE:
         # a job ref that has not been waited on: run it now (ray.get blocks until done)
-        for uid, (_f, _a, key) in list(_PENDING.items()):
+        for uid, (_f, _a, key, _s) in list(_PENDING.items()):
             if key == ref.key:
                 _run_job(uid)
                 break
@@ -235,6 +243,8 @@ def wait(refs, num_returns=1, timeout=None, fetch_local=True):  # noqa: ARG001
     chosen = refs[idx]
     if chosen.uid in _PENDING:
         _run_job(chosen.uid)
+    if DELIVERY_HOOK is not None:
+        DELIVERY_HOOK(_JOBNAME.get(chosen.key, "?"), pickle.loads(_STORE[chosen.key]))
     rest = refs[:idx] + refs[idx + 1 :]
     return [chosen], rest
 
@@ -262,6 +272,8 @@ def reset(keep_memo=True):
     """Forget all objects, pending jobs and actors (a fresh 'cluster')."""
     _STORE.clear()
     _PENDING.clear()
+    _JOBNAME.clear()
+    _SUBMIT_COUNT.clear()
     _ACTORS.clear()
     if not keep_memo:
         MEMO.clear()
